@@ -2,7 +2,7 @@
    C06 (read-then-write is a projection). *)
 From Coq Require Import ZArith NArith List Bool Arith Lia.
 From Coq Require Import Floats.SpecFloat.
-From Cfi Require Import Glue.Sx Py.PyStr Py.PyNum Py.PyBits Py.PyDate Model.Field Model.Line Model.Reader.
+From Cfi Require Import Glue.Sx Py.PyStr Py.PyNum Py.PyBits Py.PyDate Py.PyRe Model.Field Model.Line Model.Reader.
 From Cfi Require Import Proofs.FieldProofs Proofs.NumText Proofs.LineProofs Proofs.ReaderProofs.
 Import ListNotations.
 
@@ -15,8 +15,12 @@ Definition chunks_ok (cs : list str) : Prop :=
   match rev cs with [] => True | l :: r => last_chunk l /\ Forall line_chunk r end.
 
 (* layout premises of a register definition: identifier no longer than its window, fields to the right of it *)
+(* ... and, when the identifier test is a regular expression rather than the literal itself, that expression finds the
+   literal as it is written into the identifier columns (decidable: one evaluation of re_search) *)
 Definition reg_wf (r : regdef) : Prop :=
-  length (r_ident r) <= r_digits r /\ Forall (fun f => r_digits r <= start f) (r_fields r).
+  length (r_ident r) <= r_digits r /\ Forall (fun f => r_digits r <= start f) (r_fields r) /\
+  match r_pat r with None => True | Some p => re_search p (ljust (r_digits r) (r_ident r)) = true end.
+
 (* contiguous layout: the fields tile [digits, total) without gaps or overlaps, in declaration order *)
 Fixpoint contiguous (pos : nat) (fs : list field) : Prop :=
   match fs with [] => True | f :: r => start f = pos /\ contiguous (pos + size f) r end.
@@ -217,6 +221,17 @@ Proof.
   intros p x. rewrite contains_unfold. rewrite starts_with_prefix. reflexivity.
 Qed.
 
+(* the identifier test looks at the leading window only *)
+Lemma reg_matches_window : forall r a b, firstn (r_digits r) a = firstn (r_digits r) b -> reg_matches r a = reg_matches r b.
+Proof. intros r a b H. unfold reg_matches. rewrite H. reflexivity. Qed.
+
+Lemma reg_matches_written : forall r text, reg_wf r ->
+  firstn (r_digits r) text = ljust (r_digits r) (r_ident r) -> reg_matches r text = true.
+Proof.
+  intros r text [_ [_ Hpat]] Hfirst. unfold reg_matches. rewrite Hfirst.
+  destruct (r_pat r) as [p|]; [exact Hpat|]. unfold ljust. apply contains_prefix.
+Qed.
+
 Lemma fields_of_mk_state : forall fs, fields_of (mk_state fs) = fs.
 Proof.
   intros fs. unfold fields_of, mk_state. rewrite map_map. cbn [fst]. apply map_id.
@@ -311,7 +326,7 @@ Theorem reg_write_ident_columns : forall rs i d text, r_delim (nth_reg rs i) = N
   reg_matches (nth_reg rs i) text = true /\
   exists body, text = body ++ [NL].
 Proof.
-  intros rs i d text Hdelim [Hlen Hright] Hnone Hw _ _.
+  intros rs i d text Hdelim Hwf0 Hnone Hw _ _. pose proof Hwf0 as [Hlen [Hright _]].
   rewrite (write_elem_text_unfold rs i d Hnone Hdelim) in Hw.
   set (r := nth_reg rs i) in *.
   destruct (write_fields true ((ident_field r, VStr (r_ident r)) :: set_values (mk_state (r_fields r)) d) [])
@@ -335,7 +350,7 @@ Proof.
   assert (Hfirst : firstn (r_digits r) (body ++ [NL]) = ljust (r_digits r) (r_ident r)).
   { rewrite firstn_app_le by exact Hblen. exact Hbody. }
   split; [exact Hfirst|]. split.
-  - unfold reg_matches. rewrite Hfirst. unfold ljust. apply contains_prefix.
+  - apply reg_matches_written; [exact Hwf0|exact Hfirst].
   - exists body. reflexivity.
 Qed.
 
@@ -380,7 +395,7 @@ Theorem stream_binary_as_found_misaligned :
   exists rs types cs, Forall2 (fun i c => length c = composite_size (nth_reg rs i)) types cs /\
     fst (consume_all false Binary rs types (concat cs)) <> cs.
 Proof.
-  exists [ {| r_ident := [65%N]; r_digits := 1; r_fields := []; r_delim := None |} ].
+  exists [ {| r_ident := [65%N]; r_digits := 1; r_fields := []; r_delim := None; r_pat := None |} ].
   exists [0; 0]. exists [[65%N]; [65%N]].
   split.
   - apply Forall2_cons; [reflexivity|]. apply Forall2_cons; [reflexivity|]. apply Forall2_nil.
@@ -518,19 +533,18 @@ Theorem dispatch_written : forall rs i text, i < length rs -> reg_wf (nth_reg rs
   firstn (r_digits (nth_reg rs i)) text = ljust (r_digits (nth_reg rs i)) (r_ident (nth_reg rs i)) ->
   reg_dispatch rs text = Some i.
 Proof.
-  intros rs i text Hi [Hlen _] Hwin Hnem Hfirst.
+  intros rs i text Hi Hwf0 Hwin Hnem Hfirst.
   unfold reg_dispatch. apply find_idx_spec.
   destruct (nth_error rs i) as [a|] eqn:Ea.
   2:{ apply nth_error_None in Ea. lia. }
   pose proof (nth_error_nth_reg rs i a Ea) as Hai.
   exists i, a. split; [reflexivity|]. split; [exact Ea|]. split.
-  - rewrite <- Hai. unfold reg_matches. rewrite Hfirst. unfold ljust. apply contains_prefix.
+  - rewrite <- Hai. apply reg_matches_written; [exact Hwf0|exact Hfirst].
   - intros j b Hj Hb. pose proof (nth_error_nth_reg rs j b Hb) as Hbj. rewrite <- Hbj.
-    pose proof (Hnem j Hj) as Hm. unfold reg_matches in Hm |- *.
-    rewrite <- Hfirst in Hm. rewrite firstn_firstn in Hm.
-    replace (Nat.min (r_digits (nth_reg rs j)) (r_digits (nth_reg rs i))) with (r_digits (nth_reg rs j)) in Hm.
-    + exact Hm.
-    + pose proof (Hwin j Hj). lia.
+    pose proof (Hnem j Hj) as Hm. rewrite <- Hm. apply reg_matches_window.
+    rewrite <- Hfirst. rewrite firstn_firstn.
+    replace (Nat.min (r_digits (nth_reg rs j)) (r_digits (nth_reg rs i))) with (r_digits (nth_reg rs j)); [reflexivity|].
+    pose proof (Hwin j Hj). lia.
 Qed.
 
 (* --- C06: y = W (R x) is a fixed point of W o R, provided every typed element parsed from x is "stable": it either
